@@ -622,6 +622,8 @@ pub struct Scheduler {
     next_low: i64,
     /// for Starve: rival currently being driven through a full cycle
     rival_in_cycle: Option<String>,
+    rival_committed: bool,
+    starve_wait: u32,
     /// probability (per 1000) of letting virtual time pass although requests are parked
     pub tick_permille: u64,
 }
@@ -641,6 +643,8 @@ impl Scheduler {
             prio: HashMap::new(),
             next_low: -1,
             rival_in_cycle: None,
+            rival_committed: false,
+            starve_wait: 0,
             tick_permille: 30,
         }
     }
@@ -676,33 +680,43 @@ impl Scheduler {
                 best
             }
             Strategy::Starve { victim } => {
-                // Victim's GETs go through at once; its PUT waits until some rival has
-                // completed a GET and a PUT (a commit) since the victim's GET.
+                // Drive the victim into consecutive CAS conflicts: let its GET through, then let
+                // one rival run a complete GET+PUT (a commit), then release the victim's PUT.
                 if let Some(r) = self.rival_in_cycle.clone() {
                     if let Some(i) = parked.iter().position(|p| p.actor == r) {
                         if parked[i].op == "PUT" {
                             self.rival_in_cycle = None;
+                            self.rival_committed = true;
                         }
                         return i;
                     }
                     self.rival_in_cycle = None;
                 }
                 if let Some(i) = parked.iter().position(|p| p.actor == victim && p.op != "PUT") {
+                    self.rival_committed = false;
                     return i;
                 }
-                // victim is at its PUT (or absent): drive a rival through GET..PUT first
-                let rivals: Vec<usize> = parked
-                    .iter()
-                    .enumerate()
-                    .filter(|(_, p)| p.actor != victim)
-                    .map(|(i, _)| i)
-                    .collect();
-                if !rivals.is_empty() && parked.iter().any(|p| p.actor == victim) {
-                    let i = rivals[self.rng.usize(rivals.len())];
-                    if parked[i].op != "PUT" {
-                        self.rival_in_cycle = Some(parked[i].actor.clone());
+                if let Some(vi) = parked.iter().position(|p| p.actor == victim) {
+                    if self.rival_committed {
+                        self.rival_committed = false;
+                        return vi;
                     }
-                    return i;
+                    let rivals: Vec<usize> = parked
+                        .iter()
+                        .enumerate()
+                        .filter(|(_, p)| p.actor != victim && p.op != "PUT")
+                        .map(|(i, _)| i)
+                        .collect();
+                    if !rivals.is_empty() {
+                        let i = rivals[self.rng.usize(rivals.len())];
+                        self.rival_in_cycle = Some(parked[i].actor.clone());
+                        return i;
+                    }
+                    // rivals only at PUT (their GET may be stale) or none: release one of them, else the victim
+                    if let Some(i) = parked.iter().position(|p| p.actor != victim) {
+                        return i;
+                    }
+                    return vi;
                 }
                 self.rng.usize(parked.len())
             }
@@ -716,7 +730,17 @@ impl Scheduler {
         ctl.prune_parked();
         let parked = ctl.parked();
         self.steps += 1;
-        if parked.is_empty() || self.rng.below(1000) < self.tick_permille {
+        // starvation: while the victim sleeps in its backoff, hold the rivals back (let only time pass)
+        let mut wait_for_victim = false;
+        if let Strategy::Starve { victim } = &self.strategy {
+            if parked.iter().any(|p| &p.actor == victim) {
+                self.starve_wait = 0;
+            } else if !parked.is_empty() && self.starve_wait < 80 {
+                self.starve_wait += 1;
+                wait_for_victim = true;
+            }
+        }
+        if parked.is_empty() || wait_for_victim || self.rng.below(1000) < self.tick_permille {
             self.decisions.push('.');
             tokio::time::sleep(Duration::from_millis(25)).await;
             return Step::Ticked;
